@@ -2149,6 +2149,34 @@ theorem side_tables_sound :
 
 /-! ### Non-vacuity, reachability of the exceptions, and the defect class -/
 
+/-! ### nested messages (authz `MsgExec`) -/
+
+/-- **wrapped_message_is_checked.** Wrapping changes nothing: a `MsgExec` around a message — at any depth — passes the
+decorator exactly when the message itself would. -/
+theorem wrapped_message_is_checked (g : Addr) (m : Msg) (grants : Addr → Addr → Bool) :
+    anteOkTop [.exec g [.plain m]] grants = anteOk m grants ∧
+    anteOkTop [.exec g [.exec g [.plain m]]] grants = anteOk m grants := by
+  simp [anteOkTop, anteOkTx, scopeList, Top.scope]
+
+/-- **every_nested_message_is_checked.** If the decorator lets a transaction through, every paloma message it brings
+along, however deeply wrapped, is signed by its creator or by an address its creator granted an allowance to. -/
+theorem every_nested_message_is_checked (tops : List Top) (grants : Addr → Addr → Bool)
+    (h : anteOkTop tops grants = true) : ∀ m ∈ scopeList tops, SignedOrGranted grants m.signers m.creator := by
+  intro m hm
+  exact (anteOk_iff m grants).1 ((List.all_eq_true.1 h) m hm)
+
+/-- **wrapping_bypassed_the_old_decorator.** What the repaired defect was (/repo `ce5cc2b3`; reproduced on the real
+application by scenario `x` of the harness): the old decorator passed a transaction signed by account 1 alone whose
+`MsgExec` carries a message created in the name of account 2 and declaring signer 1 — a message authz then runs without
+reading any authorisation — while the message on its own is refused. -/
+theorem wrapping_bypassed_the_old_decorator :
+    let m : Msg := { typ := "tokenfactory.ChangeAdmin", signers := [1], creator := 2, field := fun _ => none }
+    anteOkTopOld [.exec 1 [.plain m]] (fun _ _ => false) = true ∧
+    execNeedsNoAuthorisation 1 m = true ∧
+    anteOk m (fun _ _ => false) = false ∧
+    anteOkTop [.exec 1 [.plain m]] (fun _ _ => false) = false := by decide
+
+
 section Examples
 
 /-- the real handler table; governance authority 99, light-node feegranter 50; validator 7
